@@ -17,9 +17,10 @@
      C08_lease_only_fast_read / _peek   a lease is created only when the requested bytes lie inside
                   one slice; every slow-path result (and ReadString, Read, ReadByte, Discard) is a copy.
      C08_bytes_stable*   no operation except a writer op / a fill by a slot's owner changes a payload byte.
-   Not modelled: Close leaves parked slices allocated (C09's subject: they stay owned, never free). *)
+     C08_lease_survives_peer_close   the peer's half close ends no lease (sweep condition from Gen/SwitchC08.v).
+   recycle() (Close) gives the parked slices back as well (since a234a74; mirrored by the model). *)
 From Coq Require Import List ZArith Lia Bool Arith.
-From Shm Require Import Gen.Consts Gen.SwitchC06 Model.LinkedBuffer Proofs.LinkedBufferProofs Proofs.LinkedBufferStore
+From Shm Require Import Gen.Consts Gen.SwitchC06 Gen.SwitchC08 Model.LinkedBuffer Proofs.LinkedBufferProofs Proofs.LinkedBufferStore
   Proofs.LinkedBufferWriter Proofs.LinkedBufferXfer Proofs.LinkedBufferPipe Proofs.LinkedBufferDuplex.
 Import ListNotations.
 Close Scope Z_scope.
@@ -38,6 +39,24 @@ Theorem C08_duplex : forall cfg ops D' le, cfg_ok cfg -> dguard spec0 spec0 ops 
   ~ In (l_off le) (frees (d_mem D')) /\ lease_bytes (d_mem D') le = l_bytes le.
 Proof. exact duplex_leases_safe. Qed.
 Print Assumptions C08_duplex.
+
+(* the peer's close (half close) ends no lease: the sweep of the callback goroutine (pendingData.clear +
+   recvBuf.recycle) runs only for a locally closed stream (Gen/SwitchC08.v, translated from
+   startCallbackGoroutine); only the holder's own release / Close ends a lease *)
+Theorem C08_lease_survives_peer_close : forall s, step s RPeerClose = Ok (RUnit, s).
+Proof. exact peer_close_is_invisible. Qed.
+Print Assumptions C08_lease_survives_peer_close.
+
+Theorem C08_sweep_on_half_close_frees_a_leased_slot :
+  let bs := map Z.of_nat (seq 0 40) in
+  match run (init_sys [(16, 4)]) [WBytes bs; WFlush; RBytes 10; RBytes 20] with
+  | Ok s => map l_off (leases (rcv s)) = [0]
+            /\ existsb (Nat.eqb 0) (concat (free (mem s))) = false
+            /\ existsb (Nat.eqb 0) (concat (free (fst (lb_recycle (mem s) (rcv s))))) = true
+  | _ => False
+  end.
+Proof. exact sweep_on_half_close_frees_a_leased_slot. Qed.
+Print Assumptions C08_sweep_on_half_close_frees_a_leased_slot.
 
 Theorem C08_invariant : forall ext Eg s sp idss le, Inv ext Eg s sp idss -> In le (leases (rcv s)) -> l_shm le = true ->
   ~ In (l_off le) (frees (mem s)) /\ lease_bytes (mem s) le = l_bytes le
